@@ -38,7 +38,9 @@ fan-out push go to `OnStreamWriteError`, a missing writer swallows the packet, a
 before the handler, close = inactive → remove → destroy, queue capacity = `WriteQueueSize`,
 RTP channel = the media's channel, client channels go in steps of two, client demultiplexing by channel
 then payload type, single in-order consumer, `ring.Close()` discards, `Pull` stops when closed, `Push`
-ignores `closed`, the reliable-mode receiver passes every packet through. -/
+ignores `closed`, the reliable-mode receiver passes every packet through, a channel pair is in use when a
+set-up media sits on c-1, c or c+1, the server picks the first free even pair, an explicit pair is checked,
+`readPacketRTP` (server and client) always keeps the UDP read buffer. -/
 theorem code_shape :
     (Facts.Pipe.ssrcRewrittenByStream && Facts.Pipe.fanoutOverActiveUnicastReaders &&
      Facts.Pipe.fanoutErrorGoesToHandler && Facts.Pipe.writeUnderStreamRLock &&
@@ -49,7 +51,9 @@ theorem code_shape :
      Facts.Pipe.clientDemuxByChannel && Facts.Pipe.clientDemuxByPayloadType &&
      Facts.Pipe.asyncSingleConsumerInOrder && Facts.Pipe.ringCloseDiscards &&
      Facts.Pipe.pullStopsWhenClosed && Facts.Pipe.pushIgnoresClosed &&
-     Facts.Pipe.reliableReceiverPassesThrough) = true ∧
+     Facts.Pipe.reliableReceiverPassesThrough && Facts.Pipe.channelPairInUseThreeCases &&
+     Facts.Pipe.freeChannelPairFirstEven && Facts.Pipe.explicitChannelPairChecked &&
+     Facts.Pipe.serverFormatKeepsReadBuffer && Facts.Pipe.clientFormatKeepsReadBuffer) = true ∧
     Facts.Pipe.interleavedMagic = 36 := by decide
 
 /-- **Isolation.**  A reader's state depends only on the writes and on its own events: what the other
@@ -432,10 +436,11 @@ def exCfg : Cfg := { cap := 2, medias := [[⟨96, 1001⟩, ⟨97, 1002⟩], [⟨
 
 def exPkt (pt seq : Nat) : Pkt := { pt, seq, ts := 90000 + seq, ssrc := 7, marker := seq % 2 == 0, payload := [UInt8.ofNat seq] }
 
-/-- reader 0 (TCP) sets up media 1 then media 0, plays; four writes with a stalled consumer (the third
+/-- reader 0 (TCP) sets up media 1 (the server picks channels 0-1) then media 0 with an explicit odd pair
+5-6, plays; four writes with a stalled consumer (the third
 to reader 0's media is refused); consumer and carrier steps; PAUSE with one frame still queued -/
 def exEvents : List Event :=
-  [.ctl 0 (.setup 1), .ctl 0 (.setup 0), .ctl 0 .play,
+  [.ctl 0 (.setup 1 none), .ctl 0 (.setup 0 (some 5)), .ctl 0 .play,
    .write 0 (exPkt 96 10), .write 1 (exPkt 98 20), .write 0 (exPkt 97 30), .write 1 (exPkt 98 21),
    .ctl 0 .consume, .ctl 0 .carry, .ctl 0 .consume, .write 0 (exPkt 96 11),
    .ctl 0 .pclose, .ctl 0 .pnil, .ctl 0 .pinact, .ctl 0 .carry]
@@ -458,7 +463,7 @@ example : (∀ e ∈ view 0 (exEvents.take 11 ++ [.ctl 0 .carry, .ctl 0 .consume
 /-- reader 1 (UDP) of the same stream: datagram 1 (seq 31) overtakes datagram 0 (seq 30), which then
 arrives twice: the receiver delivers seq 31 at once (first packet), drops the late 30 twice -/
 def exUdp : List Event :=
-  [.ctl 1 (.setup 0), .ctl 1 .play, .write 0 (exPkt 97 30), .write 0 (exPkt 97 31),
+  [.ctl 1 (.setup 0 none), .ctl 1 .play, .write 0 (exPkt 97 30), .write 0 (exPkt 97 31),
    .ctl 1 .consume, .ctl 1 .consume, .ctl 1 (.arrive 1), .ctl 1 (.arrive 0), .ctl 1 (.arrive 0),
    .write 0 (exPkt 97 32), .ctl 1 .consume, .ctl 1 (.arrive 2)]
 
